@@ -40,6 +40,13 @@ esac
 if ! go build "${modflag[@]}" "${overlay[@]}" -o "$scratch/vcheck" ./cmd/vcheck >"$scratch/build.log" 2>&1; then
   echo "BUILD FAILED (harness does not compile against /repo's working tree)"; cat "$scratch/build.log"; exit 2
 fi
+# free-running complement (parts with Race set): the same harness built with the race detector
+if [ ${#overlay[@]} -gt 0 ] && [ "$mode" != "--replay" ] && "$scratch/vcheck" hasrace "$id" "$mode" >/dev/null 2>&1; then
+  if ! go build -race "${modflag[@]}" "${overlay[@]}" -o "$scratch/vcheck-race" ./cmd/vcheck >"$scratch/build.log" 2>&1; then
+    echo "BUILD FAILED (-race build of the harness)"; cat "$scratch/build.log"; exit 2
+  fi
+  export VERIF_RACE_EXE="$scratch/vcheck-race"
+fi
 cd "$here"
 if [ "$mode" = "--replay" ]; then
   "$scratch/vcheck" replay "${3:?replay file}"; exit $?
